@@ -431,6 +431,31 @@ func optableRun(c map[string]J, reuse bool) map[string]J {
 			if n == "|" {
 				continue
 			}
+			// an atom is an operator - and as such no operand (6.3.1.3) and bracketed when written as one - iff the table says so
+			anyDef := len(def) > 0
+			{
+				q := fmt.Sprintf("T = (- %s).", nt)
+				sols, err := p.Query(q)
+				if err == nil {
+					sols.Close()
+				}
+				if (err == nil) == anyDef {
+					log = append(log, "?- "+q)
+					return fail("reading does not use the table: "+n+" as an operand", fmt.Sprintf("parses=%v", !anyDef), fmt.Sprintf("parses=%v (%v)", err == nil, err))
+				}
+				var sb strings.Builder
+				p.SetUserOutput(engineStream(&sb))
+				sols, err = p.Query(fmt.Sprintf("T =.. [-, %s], writeq(T).", nt))
+				if err != nil {
+					return fail("writeq probe", nil, err.Error())
+				}
+				sols.Next()
+				sols.Close()
+				if plain := sb.String() == "-"+nt; plain == anyDef {
+					log = append(log, fmt.Sprintf("?- T =.. [-, %s], writeq(T).", nt))
+					return fail("writing does not use the table: "+n+" as an operand", fmt.Sprintf("written as -%s: %v", nt, !anyDef), sb.String())
+				}
+			}
 			// writing: operator notation iff defined
 			for _, w := range []struct {
 				term    string
